@@ -278,6 +278,25 @@ def selectByAfter (isWord : Char → Bool) (lower : List Char → List Char) (ex
   | .error e => .error e
   | .ok a => .ok (selectIdx (fun t => !expr.isEmpty && eval (kwMatch lower (kwNames t)) a) tasks)
 
+/-! ## `-k` / `-m` at project level (`select_tasks_by_marks_and_expressions`, mark/__init__.py:238-255) -/
+
+/-- `if remaining is not None: _deselect_others_with_mark(session, remaining, …)`: without selection every task stays; with
+a selection — the empty one included — exactly its members stay (`if task.signature not in remaining: markers.append(skip)`). -/
+def keptBy : Option (List Nat) → Nat → Bool
+  | none, _ => true
+  | some sel, i => sel.contains i
+
+/-- Both selections are evaluated first, then the tasks outside either are deselected: the indices of the tasks that are
+not deselected (graph without edges). A malformed expression is an error. -/
+def selectProject (isWord : Char → Bool) (lower : List Char → List Char) (kexpr mexpr : List Char)
+    (tasks : List TaskInfo) : Except CErr (List Nat) :=
+  match selectByKeyword isWord lower kexpr tasks with
+  | .error e => .error e
+  | .ok rk =>
+    match selectByMark isWord mexpr tasks with
+    | .error e => .error e
+    | .ok rm => .ok ((List.range tasks.length).filter (fun i => keptBy rk i && keptBy rm i))
+
 /-! ## `after="<expr>"` over a whole project (`_modify_dag`, dag.py:107-127, string branch) -/
 
 /-- One iteration of the loop for task `i` carrying the string `expr`: `signatures = select_by_after_keyword(session,
